@@ -5,7 +5,7 @@
 From Coq Require Import ZArith List Bool.
 Import ListNotations.
 From Verif Require Import CallConv.FuncDetailModel CallConv.Abi CallConv.AbiLink CallConv.AbiProofs
-  CallConv.ShuffleModel CallConv.ShuffleProofs CallConv.ShuffleFindings CallConv.ShuffleBytesModel CallConv.ShuffleBytesProofs.
+  CallConv.ShuffleModel CallConv.ShuffleProofs CallConv.ShuffleFindings CallConv.ShuffleBytesModel CallConv.ShuffleBytesProofs CallConv.SolverModel CallConv.SolverProofs CallConv.AbiVariadic CallConv.AbiWfProofs.
 Local Open Scope Z_scope.
 
 (* Part A.  For every target environment e and signature s (any CallConvId, any var-arg index, any return type, up to 32
@@ -59,6 +59,28 @@ Theorem C06_win64_no_reg_beyond_16 : forall c ts i, 16 <= i ->
 Proof. exact win64_no_reg_beyond_16. Qed.
 Print Assumptions C06_win64_no_reg_beyond_16.
 
+(* Convention-independent well-formedness (round 3): for EVERY environment, EVERY CallConvId (light-call, 32-bit vectorcall, regparm, ...
+   included) and EVERY signature FuncDetail::init accepts: no two argument values share a register, the stack slots of the stack-passed
+   values are disjoint and in argument order, and all lie inside arg_stack_size.  One guard is necessary: an 80-bit float that gets no
+   vector register under the Win64 / x64-vectorcall positional strategy is put into an 8-byte home slot although it is 10 bytes wide. *)
+Theorem C06_locations_disjoint : forall e s d, f80_guard e s -> func_detail_init e s = R_ok d ->
+  NoDup (map reg_key (reg_vals d)) /\
+  (forall i j v w, (i < j)%nat -> nth_error (stack_vals d) i = Some v -> nth_error (stack_vals d) j = Some w ->
+     fv_off v + val_bytes (cc_arch (fd_cc d)) v <= fv_off w) /\
+  (forall v, In v (stack_vals d) -> 0 <= fv_off v /\ fv_off v + val_bytes (cc_arch (fd_cc d)) v <= fd_stack d).
+Proof. exact locations_disjoint. Qed.
+Print Assumptions C06_locations_disjoint.
+
+(* unconditional for every 32-bit x86 convention and every AArch64 convention *)
+Theorem C06_locations_disjoint_not_x64 : forall e s d, e_arch e <> X64 -> func_detail_init e s = R_ok d -> wf_locs d.
+Proof. exact locations_disjoint_not_x64. Qed.
+Print Assumptions C06_locations_disjoint_not_x64.
+
+(* the guard cannot be dropped: f(int, int, int, int, long double, int) on Win64 overlaps the slots at +32 and +40 *)
+Theorem C06_locations_disjoint_f80_refuted : ~ (forall e s d, func_detail_init e s = R_ok d -> wf_locs d).
+Proof. exact locations_disjoint_needs_guard. Qed.
+Print Assumptions C06_locations_disjoint_f80_refuted.
+
 (* Part B.  The validator applied to every emitted argument shuffle is sound: if it accepts (moves, clobberable locations,
    instruction list) then, from EVERY initial machine state, every destination ends up holding its argument's value, sign- or
    zero-extended by the source type when both are integers and the destination is wider, whatever cycles and overlaps exist;
@@ -90,6 +112,42 @@ Theorem C06_shuffle_frame_bytes : forall mvs allowed ms, validate_bytes mvs allo
   b_mem (bexec ms b0) a x = b_mem b0 a x.
 Proof. exact validate_bytes_frame_mem. Qed.
 Print Assumptions C06_shuffle_frame_bytes.
+
+(* Part B, the SOLVER itself (round 3).  SolverModel.solve is an executable model of the parallel-move solver of emit_args_assignment
+   (register-to-register fragment of one GP group: x86-64 with xchg, AArch64 with a scratch register; integer types of 1/2/4/8 bytes with
+   widening / narrowing destination types); the check compares its instruction list with the implementation's on every generated
+   assignment of the fragment.  For EVERY well-formed assignment (distinct source registers, distinct destination registers): whatever the
+   solver emits is correct from every initial machine state, touches only destinations and work registers, the loop terminates, and on
+   x86-64 (resp. on AArch64 when a work register that is no destination exists) it never refuses. *)
+Theorem C06_solver_correct : forall t work vs0 ms, wf_input work vs0 -> solve t work vs0 = SOk ms ->
+  forall st0 v0, In v0 vs0 -> dst_ok (move_of v0) (st0 (greg (v_cur v0))) (exec ms st0 (greg (v_out v0))).
+Proof. exact solve_correct. Qed.
+Print Assumptions C06_solver_correct.
+
+Theorem C06_solver_frame : forall t work vs0 ms, wf_input work vs0 -> solve t work vs0 = SOk ms ->
+  forall st0 l, (forall v0, In v0 vs0 -> l <> greg (v_out v0)) -> (forall r, In r work -> l <> greg r) -> exec ms st0 l = st0 l.
+Proof. exact solve_frame. Qed.
+Print Assumptions C06_solver_frame.
+
+Theorem C06_solver_terminates : forall t work vs0, wf_input work vs0 -> solve t work vs0 <> SFuel.
+Proof. exact solve_terminates. Qed.
+Print Assumptions C06_solver_terminates.
+
+Theorem C06_solver_x64_total : forall work vs0, wf_input work vs0 -> exists ms, solve TX64 work vs0 = SOk ms.
+Proof. exact solve_x64_ok. Qed.
+Print Assumptions C06_solver_x64_total.
+
+Theorem C06_solver_a64_total : forall work vs0, wf_input work vs0 -> (exists r, In r work /\ ~ In r (map v_out vs0)) ->
+  exists ms, solve TA64 work vs0 = SOk ms.
+Proof. exact solve_a64_ok. Qed.
+Print Assumptions C06_solver_a64_total.
+
+(* Apple arm64 variadic calls: the variadic arguments go to the stack (8-byte slots); the pinned code ignores the var-arg index *)
+Theorem C06_apple_variadic_refuted :
+  exists d, func_detail_init (mkEnv A64 2 2) (mkSig 0 2 0 [38; 38; 40; 40]) = R_ok d /\
+    map (map loc_of) (fd_args d) <> fst (apple_variadic_spec 2 [38; 38; 40; 40]) /\ fd_stack d <> snd (apple_variadic_spec 2 [38; 38; 40; 40]).
+Proof. exact apple_variadic_refuted. Qed.
+Print Assumptions C06_apple_variadic_refuted.
 
 (* the validator accepts real shuffles (2-cycle by xchg, 3-cycle through a scratch register, load with sign extension) *)
 Theorem C06_validator_accepts :
